@@ -460,7 +460,55 @@ func (c *Ctx) recursionGated(rule string, fns []*ssa.Function) {
 			}
 		}
 		if counts && compares {
-			gate[f] = true
+			// ... and does so on every way through: the increment and the comparison dominate every call of the
+			// function that can lead back into the region's recursion (a gate that counts only some kinds of value
+			// lets the others nest without bound)
+			var incr, cmp *ssa.BasicBlock
+			for _, b := range f.Blocks {
+				for _, in := range b.Instrs {
+					switch x := in.(type) {
+					case *ssa.Store:
+						if fa, ok := x.Addr.(*ssa.FieldAddr); ok {
+							if k, _ := fieldKeyOf(fa); strings.HasSuffix(k, load.TLPkg+".Decoder.depth") {
+								if bo, ok := x.Val.(*ssa.BinOp); ok && bo.Op == token.ADD && incr == nil {
+									incr = b
+								}
+							}
+						}
+					case *ssa.If:
+						if cd, ok := an.Classify(x); ok && cd.Kind == "ord" && (isDepth(cd.X) || isDepth(cd.Y)) && cmp == nil {
+							cmp = b
+						}
+					}
+				}
+			}
+			uncond := incr != nil && cmp != nil
+			if uncond {
+				g0 := c.Graph()
+				for _, b := range f.Blocks {
+					for _, in := range b.Instrs {
+						ci, ok := in.(ssa.CallInstruction)
+						if !ok {
+							continue
+						}
+						if _, isDefer := in.(*ssa.Defer); isDefer {
+							continue
+						}
+						reenters := false
+						for _, callee := range g0.CalleesAt(f, ci) {
+							if callee == f || g0.Reaches(callee, c.inRepo, func(h *ssa.Function) bool { return h == f }) {
+								reenters = true
+							}
+						}
+						if reenters && !(incr.Dominates(b) && cmp.Dominates(b)) {
+							uncond = false
+						}
+					}
+				}
+			}
+			if uncond {
+				gate[f] = true
+			}
 		}
 	}
 	in := map[*ssa.Function]bool{}
